@@ -674,6 +674,9 @@ structure Reply where
   s : Bytes
   b : Bytes
   n : Nat
+  /-- the handler returned a nil `*C14Reply` (and no error): nothing `protobuf.Encode` can encode;
+  `json.Marshal` renders it as `null` -/
+  isNil : Bool := false
   deriving Repr, DecidableEq
 
 /-- "fail", "panic", "nil" as bytes -/
@@ -687,9 +690,13 @@ def sPanicInt : Bytes := [112, 97, 110, 105, 99, 105, 110, 116]
 def sPanicStruct : Bytes := [112, 97, 110, 105, 99, 115, 116, 114, 117, 99, 116]
 def sPanicf : Bytes := [112, 97, 110, 105, 99, 102]
 
+/-- "nilreply": the handler returns `(nil, nil)` -/
+def sNilReply : Bytes := [110, 105, 108, 114, 101, 112, 108, 121]
+
 /-- `c14Transform(tag, a, s, b)`; `tag` is "/" followed by the handler's tag, as bytes -/
 def transform (tag : Bytes) (m : Msg) : HandlerResult Reply :=
   if m.s = sFail then .fail true
+  else if m.s = sNilReply then .ret { a := 0, s := [], b := [], n := 0, isNil := true }
   else if m.s = sPanic then .panics .str true
   else if m.s = sNil then .panics .err true
   else if m.s = sPanicErr then .panics .err true
@@ -805,7 +812,9 @@ def concreteWs : WsSvc Nat Msg Reply where
   registered := fun p => (wsTag p).isSome
   decode := fun p buf => decodePath p buf
   call := fun n p m => (n + 1, transform ((wsTag p).getD []) m)
-  encode := fun _ => some []      -- the reply bytes are compared in decoded form (see `Drv`)
+  -- the reply bytes are compared in decoded form (see `Drv`); a nil reply cannot be encoded
+  -- (`protobuf.Encode` fails: processor.go:670-674)
+  encode := fun r => if r.isNil then none else some []
 
 /-- "slow" as bytes: the handler sleeps longer than the read time-out of the clients named `q…` -/
 def sSlow : Bytes := [115, 108, 111, 119]
@@ -818,7 +827,7 @@ def keepWs : WsSvc (Nat × Bytes) Msg Reply where
   registered := fun p => p = "C14Keep"
   decode := fun _ buf => decodeMsg buf
   call := fun st _ m => ((st.1 + 1, m.b), transform [47, 75, 101, 101, 112] { m with b := st.2 })   -- "/Keep"
-  encode := fun _ => some []
+  encode := fun r => if r.isNil then none else some []
 
 /-! ### JSON bodies as `encoding/json` sees them for a struct with fields A, S, B -/
 
@@ -949,8 +958,8 @@ def resourceId (s : String) : Option Nat :=
   else if s = "C14Bytes" then some 3 else if s = "C14Empty" then some 4 else if s = "C14Both" then some 5 else none
 
 /-- the websocket reply of the concrete service is compared in decoded form: recompute the reply
-value that `encode` stands for -/
-def wsShow (st : State) (path : String) (buf : Bytes) : State × String :=
+value that `encode` stands for.  Returns the state, the outcome and the text of a reply. -/
+def wsOut (st : State) (path : String) (buf : Bytes) : State × WsOut × String :=
   if path = "C14Keep" then
     let r := processClientRequest keepWs (st.calls, st.kept) path buf
     let txt := match r.2 with
@@ -960,9 +969,8 @@ def wsShow (st : State) (path : String) (buf : Bytes) : State × String :=
           | .ret rep => "ok " ++ showReply rep
           | _ => "model-inconsistent")
         | .error _ => "model-inconsistent"
-      | .close w true => "close 1002 " ++ whyName w
-      | .close _ false => "close 1006 other"
-    ({ st with calls := r.1.1, kept := r.1.2 }, txt)
+      | .close _ _ => ""
+    ({ st with calls := r.1.1, kept := r.1.2 }, r.2, txt)
   else
   let r := processClientRequest concreteWs st.calls path buf
   let txt := match r.2 with
@@ -972,9 +980,24 @@ def wsShow (st : State) (path : String) (buf : Bytes) : State × String :=
         | .ret rep => "ok " ++ showReply rep
         | _ => "model-inconsistent")
       | .error _ => "model-inconsistent"
+    | .close _ _ => ""
+  ({ st with calls := r.1 }, r.2, txt)
+
+/-- what a websocket client sees -/
+def wsShow (st : State) (path : String) (buf : Bytes) : State × String :=
+  let r := wsOut st path buf
+  (r.1, match r.2.1 with
+    | .reply _ => r.2.2
     | .close w true => "close 1002 " ++ whyName w
-    | .close _ false => "close 1006 other"
-  ({ st with calls := r.1 }, txt)
+    | .close _ false => "close 1006 other")
+
+/-- what a direct caller of `ProcessClientRequest` gets back (no websocket in between: the error
+itself, whatever its length) -/
+def directShow (st : State) (path : String) (buf : Bytes) : State × String :=
+  let r := wsOut st path buf
+  (r.1, match r.2.1 with
+    | .reply _ => r.2.2
+    | .close w _ => "err " ++ whyName w)
 
 /-- a client named `q…` gives up reading after a time-out shorter than the sleep of a request with
 `S = "slow"`: it gets no reply although the handler runs (`Client.Send`, websocket_client.go:209-216) -/
@@ -1001,7 +1024,7 @@ def restShow (st : State) (method ctype res tail body : String) : Option (State 
         let req : RestReq Body := { method := parseMethod method, jsonCT := ct, tail := if tail = "-" then "" else tail, body := b }
         let r := restHandle h .perRequest (st.slots k) st.calls req
         let txt := match r.2.2 with
-          | .ok rep => "200 " ++ showReply rep
+          | .ok rep => if rep.isNil then "200 null" else "200 " ++ showReply rep
           | .err e => s!"{e.status} {errName e}"
         some ({ st with calls := r.2.1, slots := setSlot st.slots k r.1 }, txt)
   | _, _ => none
@@ -1054,6 +1077,11 @@ def step (s : State) (toks : List String) : State × String :=
           go k r.1 (if txt.startsWith "close" then txt else r.2)
       go n s ""
     | _, _ => (s, "bad-op")
+  | ["direct", path, buf] =>
+    -- `Service.ProcessClientRequest` called directly (processor.go:645-676)
+    match Util.unhex buf with
+    | some b => directShow s path b
+    | none => (s, "bad-op")
   | ["barrier"] => (s, "ok")
   | ["procs", n] => (s, if n.toNat?.isSome then "ok" else "bad-op")   -- GOMAXPROCS of the server process: no effect
   | ["calls"] => (s, toString s.calls)
